@@ -1,5 +1,5 @@
 ENGINES = [
-    {"name": "seqx", "path": "seqx/", "serves_properties": ["C01"],
+    {"name": "seqx", "path": "seqx/", "serves_properties": ["C01", "C20"],
      "kind_free_text": "explicit-state breadth-first search over operation sequences: successor = fresh real instance + replay of the shortest history + one operation; dedup on the reference model's canonical state; every operation of the alphabet applied from every reachable state and compared with the reference model"},
     {"name": "gosched", "path": "vrt/ explore/ instr/", "serves_properties": ["C01", "C02", "C03", "C04"],
      "kind_free_text": "stateless model checker for Go: AST instrumenter rewrites go/chan/select/sync/atomic/time/context onto a cooperative scheduler (vrt); explorer does DFS over schedules and environment choices with iterative preemption bounding, work-splitting over worker processes, replay files"},
@@ -8,6 +8,13 @@ NOTES = "All checks rebuild from /repo's working tree through bin/prepare (instr
 NOT_APPLICABLE = {}
 A_NOTE = "Trusted: the vrt shims model Go's mutex/cond/channel/select/timer semantics faithfully (self-tests + repository tests pass on the instrumented build in passthrough mode); sequential consistency; scheduling points before acquire-type operations only; data races are left to a separate -race pass."
 CHECKS = {
+    "C20": {
+        "engine": "seqx",
+        "technique": "explicit-state BFS over key-storage operation sequences vs a reference model (every operation from every reachable abstract state) + exhaustive single-alteration tampering of the serialised storage from every reachable state",
+        "text": "All 64 abstract states (initialised?, slot -> key pair over 3 slots x 3 x25519 pairs) are reached and all 100 operations (Initialize, AddKeySlot with every slot/pair/old-slot/key combination incl. wrong keys, DeleteKeySlot, Marshal->Unmarshal) are applied from each on the real KeyStorage; after every step every slot/key retrieval must agree with the model (right key -> original master key, otherwise the right error tag; last slot undeletable; no overwrite; second Initialize refused). From every state the serialised form is altered in exactly one place (blob bytes at 9 offsets x 2 flips per slot, truncation, each HMAC byte, HMAC truncated/emptied, version, slot removed/copied/garbage) and every retrieval must then fail.",
+        "design_ref": "DESIGN.md 3/C20",
+        "note": "Trusted: gopenpgp; the reference model (a slot->pair map); key pairs generated once per run. Algorithm-enum alteration is reported, not asserted (detected anyway via AlgorithmMismatch).",
+    },
     "C01": {
         "engine": "seqx+gosched",
         "technique": "explicit-state BFS of operation sequences vs a reference model on 5 CoreState flavours + stateless model checking of 2-3 concurrent clients with a porcupine linearizability check of every history",
